@@ -1,6 +1,7 @@
 (** C11  Balancing depends on the data only, not on chunking or scheduling.
     Only statements; proofs are in Proofs/BalanceProofs.v.  Model: Model/Balance.v (exact rationals). *)
 From Cooler Require Import Model.Balance Proofs.BalanceProofs.
+From Cooler Require Import Gen.Translated Proofs.GenBridgeBalance.
 From Coq Require Import Permutation Setoid Morphisms.
 Open Scope Z_scope.
 
@@ -142,3 +143,14 @@ Example ex_C11_chunked_marginals :
   map Qred (marg_of 3 (balance_spans 4 (Some 3)) [f_zero_diags 1] px) = [3#1; 8#1; 5#1]%Q /\
   map Qred (reduce_add 3 (rev (marg_chunks 3 (balance_spans 4 (Some 1)) [f_zero_diags 1] px))) = [3#1; 8#1; 5#1]%Q.
 Proof. vm_compute. split; reflexivity. Qed.
+
+(** tie by translation: util.partition as regenerated from /repo's source on this run (coq/Gen/Translated.v, written by
+    tools/py2v.py) is the model's partition; the statements that compute the chunk spans of balance_cooler and of the
+    cis-only loop are pinned *)
+Theorem C11_source_partition_is_model : forall start stop step,
+  Gen.partition start stop step = partition start stop step.
+Proof. exact gen_partition. Qed.
+Print Assumptions C11_source_partition_is_model.
+Theorem C11_source_span_pins : Gen.balance_span_pins = true.
+Proof. exact gen_balance_pins. Qed.
+Print Assumptions C11_source_span_pins.
